@@ -1,0 +1,15 @@
+//go:build verif
+
+package tendermint
+
+import (
+	storetypes "github.com/cosmos/cosmos-sdk/store/v2/types"
+	sdk "github.com/cosmos/cosmos-sdk/types"
+
+	"github.com/cosmos/ibc-go/v11/modules/core/exported"
+)
+
+// VerifDelayPeriodPassed exposes verifyDelayPeriodPassed to the verification harness (build tag verif only).
+func VerifDelayPeriodPassed(ctx sdk.Context, store storetypes.KVStore, proofHeight exported.Height, delayTimePeriod, delayBlockPeriod uint64) error {
+	return verifyDelayPeriodPassed(ctx, store, proofHeight, delayTimePeriod, delayBlockPeriod)
+}
